@@ -43,6 +43,7 @@ Proof.
   constructor; unfold sat, I_true, Q_mono.
   - intros. apply log_grows_refl.
   - intros s k1 s1 k2 s2 _. apply log_grows_trans.
+  - intros s k s' H. exact H.
   - intros f s r s' _ H. prim_inv H s. split; [exact Logic.I|apply log_grows_same; reflexivity].
   - intros A f s r s' _ H. prim_inv H s. split; [exact Logic.I|apply log_grows_same; reflexivity].
   - intros name a s r s' _ H. prim_inv H s; (split; [exact Logic.I|apply log_grows_same; reflexivity]).
@@ -51,7 +52,8 @@ Proof.
   - intros a s r s' _ H. prim_inv H s. split; [exact Logic.I|apply log_grows_same; reflexivity].
   - intros a s r s' _ H. prim_inv H s. split; [exact Logic.I|apply log_grows_same; reflexivity].
   - intros b s r s' _ H. prim_inv H s. split; [exact Logic.I|]. exists [IoWrite b]. reflexivity.
-  - intros evs s r s' _ H. prim_inv H s. split; [exact Logic.I|]. exists (rev evs). reflexivity.
+  - intros t s r s' _ H. prim_inv H s. split; [exact Logic.I|]. exists [IoSignalAt t]. reflexivity.
+  - intros evs s r s' _ H. prim_inv H s. split; [exact Logic.I|]. exists (rev (map io_of evs)). reflexivity.
   - intros A e s r s' _ H. prim_inv H s. split; [exact Logic.I|]. exists [IoRaise]. reflexivity.
 Qed.
 
@@ -88,6 +90,7 @@ Proof.
   constructor; unfold sat, I_true, Q_err.
   - intros s k _ Hk E. congruence.
   - intros s k1 s1 k2 s2 _ _ H. exact H.
+  - intros s k s' _ E. discriminate.
   - intros f s r s' _ H. prim_inv H s. split; [exact Logic.I|discriminate].
   - intros A f s r s' _ H. prim_inv H s. split; [exact Logic.I|discriminate].
   - intros name a s r s' _ H. prim_inv H s; (split; [exact Logic.I|discriminate]).
@@ -96,6 +99,7 @@ Proof.
   - intros a s r s' _ H. prim_inv H s. split; [exact Logic.I|discriminate].
   - intros a s r s' _ H. prim_inv H s. split; [exact Logic.I|discriminate].
   - intros b s r s' _ H. prim_inv H s. split; [exact Logic.I|discriminate].
+  - intros t s r s' _ H. prim_inv H s. split; [exact Logic.I|discriminate].
   - intros evs s r s' _ H. prim_inv H s. split; [exact Logic.I|discriminate].
   - intros A e s r s' _ H. prim_inv H s. split; [exact Logic.I|]. intros _. eexists. reflexivity.
 Qed.
@@ -124,6 +128,90 @@ Lemma sat_err_last {A} (m : M A) : sat I_true Q_err m -> err_last m.
 Proof.
   intros H s r s' E. destruct (H s r s' Logic.I E) as [_ HQ].
   destruct r; try exact Logic.I. apply HQ. reflexivity.
+Qed.
+
+(* ------------------------------------------------------------------ instance 3: exactly one raise *)
+
+Definition Q_one (s : st) (k : kind) (s' : st) : Prop :=
+  match k with
+  | KOk | KSig _ => exists l, io s' = l ++ io s /\ quiet l
+  | KErr => exists l, io s' = IoRaise :: l ++ io s /\ quiet l
+  | KPanic | KFuel | KUnsupp => True
+  end.
+
+Lemma quiet_nil : quiet []. Proof. intros H. inversion H. Qed.
+Lemma quiet_app l1 l2 : quiet l1 -> quiet l2 -> quiet (l1 ++ l2).
+Proof. unfold quiet. intros H1 H2 H. apply in_app_or in H. tauto. Qed.
+Lemma quiet_reads (evs : list io_ev) : quiet (rev (map io_of evs)).
+Proof.
+  intros H. apply in_rev in H. apply in_map_iff in H. destruct H as (x & E & _).
+  destruct x; discriminate.
+Qed.
+
+Lemma Q_one_same s k s' : k <> KErr -> io s' = io s -> Q_one s k s'.
+Proof.
+  intros Hk E. destruct k; cbn; try exact Logic.I; try congruence;
+    (exists []; split; [exact E|apply quiet_nil]).
+Qed.
+
+Ltac one_same := split; [exact Logic.I|apply Q_one_same; [discriminate|reflexivity]].
+
+Lemma one_base : inv_base I_true Q_one.
+Proof.
+  constructor; unfold sat, I_true.
+  - intros s k _ Hk. apply Q_one_same; [assumption|reflexivity].
+  - intros s k1 s1 k2 s2 Hs H1 H2.
+    assert (H1' : exists l, io s1 = l ++ io s /\ quiet l) by (destruct k1; cbn in Hs; try contradiction; exact H1).
+    destruct H1' as (l1 & E1 & Hq1).
+    destruct k2; cbn in *; try exact Logic.I; destruct H2 as (l2 & E2 & Hq2).
+    + exists (l2 ++ l1). split; [rewrite E2, E1, app_assoc; reflexivity|apply quiet_app; assumption].
+    + exists (l2 ++ l1). split; [rewrite E2, E1, app_assoc; reflexivity|apply quiet_app; assumption].
+    + exists (l2 ++ l1). split; [rewrite E2, E1, app_assoc; reflexivity|apply quiet_app; assumption].
+  - intros s k s' _. exact Logic.I.
+  - intros f s r s' _ H. prim_inv H s. one_same.
+  - intros A f s r s' _ H. prim_inv H s. one_same.
+  - intros name a s r s' _ H. prim_inv H s; one_same.
+  - intros name a s r s' _ H. prim_inv H s. one_same.
+  - intros a s r s' _ H. prim_inv H s. one_same.
+  - intros a s r s' _ H. prim_inv H s. one_same.
+  - intros a s r s' _ H. prim_inv H s. one_same.
+  - intros b s r s' _ H. prim_inv H s. split; [exact Logic.I|]. exists [IoWrite b]. split; [reflexivity|].
+    intros [E|[]]. discriminate.
+  - intros t s r s' _ H. prim_inv H s. split; [exact Logic.I|]. exists [IoSignalAt t]. split; [reflexivity|].
+    intros [E|[]]. discriminate.
+  - intros evs s r s' _ H. prim_inv H s. split; [exact Logic.I|]. exists (rev (map io_of evs)).
+    split; [reflexivity|apply quiet_reads].
+  - intros A e s r s' _ H. prim_inv H s. split; [exact Logic.I|]. exists []. split; [reflexivity|apply quiet_nil].
+Qed.
+
+Lemma Q_one_io s k s1 s2 : io s2 = io s1 -> Q_one s k s1 -> Q_one s k s2.
+Proof. intros E. destruct k; cbn; try rewrite E; auto. Qed.
+
+Lemma one_bracket : bracket_ok I_true Q_one.
+Proof.
+  apply (bracket_from_sat _ _ one_base); unfold sat, I_true.
+  - intros name s r s' _ H.
+    destruct (push_frame_cases name s) as [[_ E]|[_ E]]; rewrite E in H; inversion H; subst; one_same.
+  - intros s k s1 s2 _ HQ H. split; [exact Logic.I|].
+    destruct (pop_frame_cases s1) as [E|(f1 & f2 & rest & _ & E)]; rewrite E in H; inversion H; subst.
+    eapply Q_one_io; [|exact HQ]. reflexivity.
+Qed.
+
+Lemma one_isolate : isolate_ok I_true Q_one.
+Proof.
+  intros A m Hm s r s' _ H. apply isolate_inv in H. destruct H as (s1 & H & E). subst s'.
+  split; [exact Logic.I|]. destruct (Hm _ _ _ Logic.I H) as [_ HQ].
+  destruct (kind_of r); cbn in *; exact HQ.
+Qed.
+
+Lemma one_ok : inv_ok I_true Q_one.
+Proof. constructor; [exact one_base|exact one_bracket|exact one_isolate]. Qed.
+
+Lemma sat_one_iff {A} (m : M A) : sat I_true Q_one m <-> raises_surface m.
+Proof.
+  split.
+  - intros H s r s' E. destruct (H s r s' Logic.I E) as [_ HQ]. destruct r; exact HQ.
+  - intros H s r s' _ E. split; [exact Logic.I|]. specialize (H s r s' E). destruct r; exact H.
 Qed.
 
 (* ------------------------------------------------------------------ all functions, both instances *)
@@ -343,4 +431,50 @@ Theorem run_special_keeps_output src prog fz n rs mk s r s' :
 Proof.
   intros Hmk H. apply log_grows_output.
   exact (ev_run_special _ output_monotone_all src prog fz n rs mk Hmk _ _ _ H).
+Qed.
+
+(* ------------------------------------------------------------------ a failure is never ignored *)
+
+Theorem raises_surface_all : everywhere (fun A m => raises_surface m).
+Proof.
+  apply (everywhere_impl (fun A m => sat I_true Q_one m)).
+  - intros A m. apply sat_one_iff.
+  - intros A m. apply sat_one_iff.
+  - apply everywhere_sat. exact one_ok.
+Qed.
+
+Theorem raises_surface_run src prog fz sels n files :
+  raises_surface (run_body src prog fz sels n files).
+Proof.
+  apply sat_one_iff. apply run_body_sat_true; [exact one_ok|].
+  intros fs s. apply Q_one_same; [discriminate|reflexivity].
+Qed.
+
+(* a run that ends normally (or with exit) has not raised anything, anywhere *)
+Theorem no_silent_failure n src files sels fz s :
+  eval_program n src files sels fz = mkRun OOk s -> ~ In IoRaise (io s).
+Proof.
+  unfold eval_program. destruct (parse_program src) as [prog p|pos| |]; try discriminate.
+  destruct (run_body src prog fz sels n files init_state) as [r s0] eqn:Hr. intros H.
+  injection H as Hc Hs. subst s0.
+  pose proof (raises_surface_run _ _ _ _ _ _ _ _ _ Hr) as HS.
+  destruct r as [u|e|x| | |]; cbn in Hc; try discriminate Hc.
+  - destruct HS as (l & E & Hq). cbn in E. rewrite app_nil_r in E. rewrite E. exact Hq.
+  - destruct (ekind_of e); discriminate Hc.
+  - destruct HS as (l & E & Hq). cbn in E. rewrite app_nil_r in E. rewrite E. exact Hq.
+Qed.
+
+(* a run that ends in an error has raised exactly once: at the very end *)
+Theorem one_failure n src files sels fz prog p s o :
+  parse_program src = POk prog p ->
+  eval_program n src files sels fz = mkRun o s ->
+  (exists e, o = ORuntime e) \/ o = OJson \/ (exists e, o = OSyntax e) ->
+  exists l, io s = IoRaise :: l /\ ~ In IoRaise l.
+Proof.
+  intros Hp He Ho. rewrite (eval_program_ok _ _ _ _ _ _ _ Hp) in He.
+  destruct (run_body src prog fz sels n files init_state) as [r s0] eqn:Hr.
+  cbn [fst snd] in He. inversion He; subst o s0. clear He.
+  destruct (classify_err r Ho) as [e Hre]. subst r.
+  pose proof (raises_surface_run _ _ _ _ _ _ _ _ _ Hr) as (l & E & Hq). cbn in E.
+  rewrite app_nil_r in E. eauto.
 Qed.
